@@ -1255,6 +1255,10 @@ func genAddress(r *rand.Rand, id string, size int, total int) []string {
 		acl := acls[g.pick(len(acls))]
 		p := g.pick(3)
 		q := g.pick(3)
+		if g.pick(6) == 0 {
+			// one options value for "open or create" and then for a plain Create of the same name
+			g.add("reuseopts %d %s %s", p, name, kind)
+		}
 		g.add("pathjoin %s", name)
 		g.add("detaddr %d %s %s %s", p, name, kind, acl)
 		g.add("detaddr %d %s %s %s", q, name, kind, acl)
